@@ -78,6 +78,23 @@ pub fn run_case(case: &Case, timeout_s: u64) -> CaseResult {
 /// Map a case result to an outcome for `property`.  Violations of other
 /// properties are left to those properties' own checks.
 pub fn outcome_for(property: &str, also: &[&str], res: CaseResult, is_known: &dyn Fn(&str, &str) -> bool, nontrivial: &dyn Fn(&Verdict) -> (bool, Vec<&'static str>)) -> Outcome {
+    outcome_for_case(None, property, also, res, is_known, nontrivial)
+}
+
+/// `case`: when given, a crash of a case carrying the marker `__allow:<sig>` of a schedule-dependent
+/// known finding is attributed to that finding (only saved replay inputs carry such markers).
+pub fn outcome_for_case(case: Option<&Case>, property: &str, also: &[&str], res: CaseResult, is_known: &dyn Fn(&str, &str) -> bool, nontrivial: &dyn Fn(&Verdict) -> (bool, Vec<&'static str>)) -> Outcome {
+    let race_marker = case.and_then(|c| c.opts.iter().find(|(k, v)| k == "__allow" && v == "markcompact-nonmoving-double-release-race").map(|(_, v)| v.clone()));
+    if let Some(sig) = &race_marker {
+        let crashed = match &res {
+            CaseResult::Crash { .. } => true,
+            CaseResult::Verdict(v) => v.violations.iter().any(|x| x.property == "CRASH"),
+            _ => false,
+        };
+        if crashed && is_known(property, sig) {
+            return Outcome::Known { signature: sig.clone(), nontrivial: false, labels: vec![] };
+        }
+    }
     match res {
         CaseResult::Verdict(v) => {
             let (nt, labels) = nontrivial(&v);
